@@ -133,7 +133,7 @@ fn clone_resp(r: &Response) -> Response {
 /// draws it and records it.
 pub enum Chooser<'a> {
     Replay(BTreeMap<(u64, u64, u64), MsgAct>),
-    Record { rng: &'a mut Rng, drop: u64, dup: u64, delay: u64, max_delay_ms: u64, until_ns: u64, out: Vec<Ev>, adapt: [u64; 3], next_data: u64 },
+    Record { rng: &'a mut Rng, drop: u64, dup: u64, delay: u64, max_delay_ms: u64, until_ns: u64, out: Vec<Ev>, adapt: [u64; 3], next_data: u64, vote_hold: u64 },
 }
 
 pub struct Sim<'a> {
@@ -289,12 +289,17 @@ impl<'a> Sim<'a> {
         *ps += 1;
         let act = match &mut self.chooser {
             Chooser::Replay(map) => map.get(&(from, to, seq)).cloned(),
-            Chooser::Record { rng, drop, dup, delay, max_delay_ms, until_ns, out, .. } => {
+            Chooser::Record { rng, drop, dup, delay, max_delay_ms, until_ns, out, vote_hold, .. } => {
                 if self.now_ns >= *until_ns {
                     None
                 } else {
+                    // election traffic (PreVote / Vote requests and their answers) is biased towards being held
+                    // back for a term timeout or more, or lost: stale votes and half-delivered candidacies
+                    let election = *vote_hold > 0 && matches!(msg.req.verif_kind(), "Vote" | "PreVote");
                     let x = rng.below(1000);
-                    let act = if x < *drop {
+                    let act = if election && rng.below(1000) < *vote_hold {
+                        if rng.chance(1, 3) { Some(MsgAct::Drop) } else { Some(MsgAct::Delay { ms: rng.range(self.plan.term_ms / 2, self.plan.term_ms * 4) }) }
+                    } else if x < *drop {
                         Some(MsgAct::Drop)
                     } else if x < *drop + *dup {
                         Some(MsgAct::Dup { ms: rng.range(1, *max_delay_ms) })
